@@ -367,6 +367,17 @@ func (pp *PairPos) Sanitize() error {
 	return nil
 }
 
+func (cp *CursivePos) Sanitize() error {
+	if cp.coverage == nil {
+		return errMissingCoverage
+	}
+	// additional records are harmless
+	if exp, got := cp.coverage.Len(), len(cp.EntryExits); exp > got {
+		return fmt.Errorf("GPOS: invalid CursivePos anchors count (%d > %d)", exp, got)
+	}
+	return nil
+}
+
 func (mp *MarkBasePos) Sanitize() error {
 	if mp.markCoverage == nil || mp.BaseCoverage == nil {
 		return errMissingCoverage
